@@ -100,7 +100,7 @@ theorem blockD_eq (r : Req) (hp : plainDefaults r = true) :
     | plain s =>
       cases he : r.exDefault <;>
         simp [Tri.given, plainText, Out.ok, Out.fail, Out.andThen, emitAll, compile, renderDefault, Dialect.isMySQL]
-    | identity a s => simp [hs, isIdentity, DefVal.isIdentity] at hI
+    | identity a s e => simp [hs, isIdentity, DefVal.isIdentity] at hI
     | computed s => simp [hs, isComputed, DefVal.isComputed] at hC
 
 theorem blockN_eq (r : Req) : blockN r = ⟨nStmts (tref r) r.column r.newName, none⟩ := by
@@ -203,7 +203,7 @@ theorem exact_impl_mssql (r : Req) (init : ColState)
         | set v =>
           cases v with
           | plain s => simp [plainText, defaultIs]
-          | identity a s => simp [hs, isIdentity, DefVal.isIdentity] at hp
+          | identity a s e => simp [hs, isIdentity, DefVal.isIdentity] at hp
           | computed s => simp [hs, isComputed, DefVal.isComputed] at hp
       · cases hnn : r.newName <;> simp [hname]
       · cases hcm : r.comment <;> simp_all [Tri.given]
